@@ -23,28 +23,32 @@ Definition lines_eqb : list text -> list text -> bool := list_eqb text_eqb.
 (* every kind of JSON value can be a whole record: null, booleans, numbers, strings and (here: empty) containers *)
 (* a container (array/object, possibly nested) is represented by its canonical text: the document with the white
    space outside strings removed = json.dumps(obj, separators=(',', ':'), ensure_ascii=False) *)
-Inductive jval := JNull | JBool (b : bool) | JInt (n : N) | JStr (s : text) | JCont (canon : text).
+(* a float is represented by its text, which for the canonical spellings the generator uses is Python's repr *)
+Inductive jval := JNull | JBool (b : bool) | JInt (z : Z) | JFloat (repr : text) | JStr (s : text) | JCont (canon : text).
 Definition jval_eqb (a b : jval) : bool :=
   match a, b with
   | JNull, JNull => true
   | JCont x, JCont y => text_eqb x y
   | JBool x, JBool y => Bool.eqb x y
-  | JInt x, JInt y => x =? y
+  | JInt x, JInt y => Z.eqb x y
+  | JFloat x, JFloat y => text_eqb x y
   | JStr x, JStr y => text_eqb x y
   | _, _ => false
   end.
 (* as observed (strings run-length coded) *)
-Inductive jobs := JObsNull | JObsBool (b : bool) | JObsInt (n : N) | JObsStr (s : rtext) | JObsCont (canon : rtext).
+Inductive jobs := JObsNull | JObsBool (b : bool) | JObsInt (z : Z) | JObsFloat (repr : rtext) | JObsStr (s : rtext)
+               | JObsCont (canon : rtext).
 Definition jobs_val (o : jobs) : jval :=
   match o with
-  | JObsNull => JNull | JObsBool b => JBool b | JObsInt n => JInt n | JObsStr s => JStr (expand s)
+  | JObsNull => JNull | JObsBool b => JBool b | JObsInt n => JInt n | JObsFloat r => JFloat (expand r)
+  | JObsStr s => JStr (expand s)
   | JObsCont c => JCont (expand c)
   end.
 
 (* json.loads restricted to the alphabet the generator uses: JSON white space, digits, '"', the letters of
    null/true/false, brackets and braces, a few punctuation marks/letters that start no JSON token, and non-ASCII
    characters.  On that alphabet (and with [json_shape_ok] below) a document is: white space, then one of
-     0 | [1-9][0-9]*      '"' [^"\ and no control character]* '"'      null  true  false
+     an optional minus, 0 | [1-9][0-9]+, an optional fraction . digits      '"' [^"\ and no control character]* '"'      null  true  false
      [ value , ... ]      { "key" : value , ... }      (nested, white space between tokens)
    then white space; everything else raises.  None = json.loads raises; Some JNull = it returned None. *)
 Definition is_json_ws (c : N) : bool := (c =? 32) || (c =? 9) || (c =? 10) || (c =? 13).
@@ -68,12 +72,24 @@ Fixpoint span_digits (t : text) : text * text :=
   | c :: r => if is_digit c then let '(d, rest) := span_digits r in (c :: d, rest) else ([], t)
   | [] => ([], [])
   end.
-Definition p_number (t : text) : option text :=
-  let '(d, rest) := span_digits t in
+(* optional minus, 0 or a digit string without leading zero, optional fraction  ->  (is it a float, rest) *)
+Definition p_number_kind (t : text) : option (bool * text) :=
+  let t1 := match t with c :: r => if c =? 45 then r else t | [] => t end in
+  let '(d, rest) := span_digits t1 in
   match d with
   | [] => None
-  | c :: r => if (c =? 48) && negb (is_nil r) then None else Some rest
+  | c :: r =>
+      if (c =? 48) && negb (is_nil r) then None
+      else match rest with
+           | dot :: rest1 =>
+               if dot =? 46
+               then let '(f, rest2) := span_digits rest1 in
+                    match f with [] => Some (false, rest) | _ => Some (true, rest2) end
+               else Some (false, rest)
+           | [] => Some (false, rest)
+           end
   end.
+Definition p_number (t : text) : option text := option_map snd (p_number_kind t).
 Fixpoint p_lit (lit t : text) : option text :=
   match lit, t with
   | [], _ => Some t
@@ -89,7 +105,7 @@ Fixpoint p_value (fuel : nat) (t : text) : option text :=
       | [] => None
       | c :: r =>
           if c =? 34 then p_string r
-          else if is_digit c then p_number (c :: r)
+          else if is_digit c || (c =? 45) then p_number (c :: r)
           else if c =? 110 then p_lit lit_null (c :: r)
           else if c =? 116 then p_lit lit_true (c :: r)
           else if c =? 102 then p_lit lit_false (c :: r)
@@ -164,8 +180,13 @@ Definition mini_loads (t : text) : option jval :=
   match s with
   | [] => None
   | c :: r =>
-      if forallb is_digit s
-      then (if (c =? 48) && negb (is_nil r) then None else Some (JInt (digits_val s)))
+      if is_digit c || (c =? 45)
+      then match p_number_kind s with
+           | Some (false, []) =>
+               Some (JInt (if c =? 45 then Z.opp (Z.of_N (digits_val r)) else Z.of_N (digits_val s)))
+           | Some (true, []) => Some (JFloat s)
+           | _ => None
+           end
       else if c =? 34 then
         match rev r with
         | q :: body_rev =>
@@ -186,7 +207,8 @@ Definition mini_loads (t : text) : option jval :=
 (* bytes on which mini_loads is json.loads (no token starters - N I, no backslash, no '.', 'E', '+',
    no NUL / BOM bytes that would switch json.detect_encoding) *)
 Definition jsonl_byte_ok (b : N) : bool :=
-  ((9 <=? b) && (b <=? 13)) || (b =? 28) || (b =? 32) || (b =? 34) || (b =? 35) || (b =? 44) || is_digit b || (b =? 58)
+  ((9 <=? b) && (b <=? 13)) || (b =? 28) || (b =? 32) || (b =? 34) || (b =? 35) || (b =? 44) || (b =? 45) || (b =? 46)
+  || is_digit b || (b =? 58)
   || (b =? 97) || (b =? 98)
   || (b =? 91) || (b =? 93) || (b =? 123) || (b =? 125)                                   (* [ ] { } *)
   || (b =? 101) || (b =? 102) || (b =? 108) || (b =? 110) || (b =? 114) || (b =? 115) || (b =? 116) || (b =? 117)
